@@ -180,7 +180,8 @@ class Gen:
             return "(insub %s %s)" % (x, self.select(d - 1))
         if k == 9 and self.subqueries:
             return "(exists %s)" % self.select(d - 1)
-        return "(intuples %s %s)" % (x, " ".join("(%s)" % " ".join(self.value() for _ in range(2)) for _ in range(r.randrange(1, 3))))
+        tw = r.randrange(1, 5)
+        return "(intuples %s %s)" % (x, " ".join("(%s)" % " ".join(self.value() for _ in range(tw)) for _ in range(r.randrange(1, 3))))
 
     def custom_with(self, d):
         r = self.r
@@ -237,7 +238,7 @@ class Gen:
         if k < 0.92 and depth > 0 and self.subqueries:
             return "(tsub %s %s)" % (self.select(depth - 1), self.ident())
         if k < 0.96:
-            w = r.randrange(1, 3)
+            w = r.randrange(1, 5)
             rows = " ".join("(row %s)" % " ".join(self.value() for _ in range(w)) for _ in range(r.randrange(1, 3)))
             return "(tvalues %s %s)" % (self.ident(), rows)
         if k < 0.99:
